@@ -25,11 +25,14 @@ var c14ISNs = []uint32{0, 1, 0x7fffffff, 0x80000000, 0xfffffffe, 0xffffffff}
 var c14Decoded = []int{23, 80, 443, 445, 1433, 6379, 9200}
 
 type c14Peer struct {
-	IP      string `json:"ip"`
-	Port    int    `json:"port"`
-	DPort   int    `json:"dport"`
-	ISN     uint32 `json:"isn"`
-	ViaGW   bool   `json:"via_gw"` // no ARP entry for the peer: frames go to the gateway's MAC
+	IP    string `json:"ip"`
+	Port  int    `json:"port"`
+	DPort int    `json:"dport"`
+	ISN   uint32 `json:"isn"`
+	ViaGW bool   `json:"via_gw"` // no ARP entry for the peer: frames go to the gateway's MAC
+	// Crossed: the listener closes first (the peer stays silent past the handler's read timeout) and the peer's
+	// own FIN still carries the acknowledgement number from before the listener's FIN - the FINs crossed
+	Crossed bool `json:"crossed,omitempty"`
 }
 
 func genC14(seed uint64, idx int, tier string) *Scenario {
@@ -99,9 +102,17 @@ func genC14(seed uint64, idx int, tier string) *Scenario {
 			a.Ops = append(a.Ops, op)
 			if r.Chance(0.1) {
 				a.Ops = append(a.Ops, Op{K: "sleep", Ms: int64(r.Range(1, 2000))})
+			} else if r.Chance(0.05) {
+				// an established connection may stay idle for a long time (below the handler's 60 s read timeout)
+				// while other peers connect
+				a.Ops = append(a.Ops, Op{K: "sleep", Ms: int64(r.Range(30500, 55000))})
 			}
 		}
 		_ = pushed
+		if r.Chance(0.12) {
+			peers[len(peers)-1].Crossed = true
+			a.Ops = append(a.Ops, Op{K: "sleep", Ms: 61500})
+		}
 		a.Ops = append(a.Ops, Op{K: "fin"})
 		sc.Actors = append(sc.Actors, a)
 	}
@@ -141,14 +152,19 @@ type peerState struct {
 	stream    []byte
 	firstPush int // bytes up to and including the first pushed segment (0 = none pushed)
 	// observations
-	frames   []string // canonical rendering of frames the listener sent to this peer (relative numbers)
-	synAck   bool
-	finSeen  bool
-	finAcked bool
-	viol     string
-	dataAcks int
-	needAck  bool   // a data segment was sent whose acknowledgement has not been seen yet
-	wantAck  uint32 // the acknowledgement number it must carry
+	frames                          []string // canonical rendering of frames the listener sent to this peer (relative numbers)
+	synAck                          bool
+	finSeen                         bool
+	finAcked                        bool
+	viol                            string
+	dataAcks                        int
+	timeline                        []string
+	lastSegMs, maxGapMs             int64  // last data segment; longest silence before a data segment
+	estMs, firstPushMs, firstDataMs int64  // simulated times of the handshake ACK, the first pushed segment, the first data
+	heldFin                         uint32 // crossed peers: sequence number after the listener's FIN, not acknowledged yet
+	crossedFins                     bool
+	needAck                         bool   // a data segment was sent whose acknowledgement has not been seen yet
+	wantAck                         uint32 // the acknowledgement number it must carry
 }
 
 type c14Run struct {
@@ -280,7 +296,14 @@ func c14Execute(t *testing.T, sc *Scenario) *c14Run {
 				rel := d.Seq - ps.srvISN
 				ps.frames = append(ps.frames, fmt.Sprintf("flags=%#x seq=+%d ack=+%d len=%d", d.Flags, rel, d.Ack-ps.ISN, len(d.Payload)))
 				// the peer acknowledges what it received
-				if ps.haveSrv {
+				if ps.haveSrv && ps.Crossed && d.Flags&tcpFIN != 0 && !ps.finSent {
+					// the peer has not "seen" the listener's FIN yet: it is acknowledged after the peer's own FIN
+					ps.heldFin = d.Seq + uint32(len(d.Payload)) + 1
+					if len(d.Payload) > 0 {
+						ps.srvNext = d.Seq + uint32(len(d.Payload))
+						inject(ps, tcpACK, nil)
+					}
+				} else if ps.haveSrv {
 					adv := uint32(len(d.Payload))
 					if d.Flags&(tcpSYN|tcpFIN) != 0 {
 						adv++
@@ -305,6 +328,7 @@ func c14Execute(t *testing.T, sc *Scenario) *c14Run {
 				ps.seq = ps.ISN + 1
 			case "ack":
 				inject(ps, tcpACK, nil)
+				ps.estMs = w.nowMs()
 			case "data":
 				b := op.Bytes()
 				fl := byte(tcpACK)
@@ -321,11 +345,34 @@ func c14Execute(t *testing.T, sc *Scenario) *c14Run {
 				}
 				if op.Note == "psh" && ps.firstPush == 0 {
 					ps.firstPush = len(ps.stream)
+					ps.firstPushMs = w.nowMs()
 				}
+				if ps.firstDataMs == 0 && len(b) > 0 {
+					ps.firstDataMs = w.nowMs()
+				}
+				// the listener hands received data to its handler when a segment carries PSH (or FIN); the handler
+				// waits 60 s per read: what matters is the silence between such wake-ups
+				if op.Note == "psh" {
+					if last := max(ps.lastSegMs, ps.estMs); w.nowMs()-last > ps.maxGapMs {
+						ps.maxGapMs = w.nowMs() - last
+					}
+					ps.lastSegMs = w.nowMs()
+				}
+				ps.timeline = append(ps.timeline, fmt.Sprintf("%d:%d", w.nowMs(), len(b)))
 			case "fin":
+				if last := max(ps.lastSegMs, ps.estMs); w.nowMs()-last > ps.maxGapMs {
+					ps.maxGapMs = w.nowMs() - last
+				}
 				inject(ps, tcpFIN|tcpACK, nil)
 				ps.seq++
 				ps.finSent = true
+				if ps.heldFin != 0 {
+					// now the listener's FIN "arrives" at the peer and is acknowledged
+					ps.srvNext = ps.heldFin
+					ps.heldFin = 0
+					ps.crossedFins = true
+					inject(ps, tcpACK, nil)
+				}
 			}
 		}
 		w.StepCheck = func(w *World) string {
@@ -419,11 +466,20 @@ func runC14(t *testing.T, sc *Scenario) Result {
 				decoded = true
 			}
 		}
+		// the listener's handler waits 60 s for data; a peer whose first data comes later than that after the
+		// handshake is reported with what had arrived by then (possibly nothing) - not judged for content
+		late := ps.firstPush > 0 && ps.firstPushMs-ps.estMs >= 59000 || ps.firstDataMs-ps.estMs >= 59000 || ps.maxGapMs >= 59000
+		if (ps.DPort == 80 || ps.DPort == 9200) && !bytes.Contains(ps.stream, []byte("\r\n\r\n")) {
+			late = true // (minimised scripts) an incomplete request is not reported by the protocol decoder
+		}
+		if late {
+			res.probe("first-data-after-read-timeout", 1)
+		}
 		if len(evs) == 0 {
-			if decoded && ps.DPort != 80 && ps.DPort != 9200 {
+			if decoded && ps.DPort != 80 && ps.DPort != 9200 || late && decoded {
 				continue // protocol decoders report only what they can parse
 			}
-			res.Violate("connection-not-reported", "raw-tcp", fmt.Sprintf("peer %d (%s:%d -> port %d): no event carries the peer's address and port (%d bytes sent, first push at %d)", i, ps.IP, ps.Port, ps.DPort, ps.sentBytes, ps.firstPush))
+			res.Violate("connection-not-reported", "raw-tcp", fmt.Sprintf("peer %d (%s:%d -> port %d): no event carries the peer's address and port (%d bytes sent, first push at %d; established at %d ms, first data at %d ms, longest silence before a pushed segment %d ms); segments sent (ms:bytes) %v; frames to the peer: %v", i, ps.IP, ps.Port, ps.DPort, ps.sentBytes, ps.firstPush, ps.estMs, ps.firstDataMs, ps.maxGapMs, ps.timeline, ps.frames))
 			return res
 		}
 		if !decoded {
@@ -441,12 +497,15 @@ func runC14(t *testing.T, sc *Scenario) Result {
 				res.Violate("event-payload-not-a-prefix", "raw-tcp", fmt.Sprintf("peer %d: event payload (%d bytes) is not a prefix of the %d bytes sent", i, len(pl), len(ps.stream)))
 				return res
 			}
-			if len(pl) < ps.firstPush && len(pl) < 2048 {
+			if len(pl) < ps.firstPush && len(pl) < 2048 && !late {
 				res.Violate("event-payload-misses-first-push", "raw-tcp", fmt.Sprintf("peer %d: event payload has %d bytes, the first pushed segment ends at %d", i, len(pl), ps.firstPush))
 				return res
 			}
 		}
 		res.probe("connections-verified", 1)
+		if ps.crossedFins {
+			res.probe("crossed-fins", 1)
+		}
 	}
 	res.probe("frames-verified", run.frames)
 	// solo-run equivalence per peer
